@@ -270,8 +270,14 @@ func (a *otherContactsAction) resolveRecipients(run flows.Run, logEvent flows.Ev
 
 	// evaluate contact query.. which isn't truncated because cutting a query short changes what it means: it can drop
 	// conditions and can cut the closing quote off an escaped value so that the rest of the value is read as query
-	contactQuery, _ := run.EvaluateTemplateText(a.ContactQuery, flows.ContactQueryEscaping, false, logEvent)
+	contactQuery, ok := run.EvaluateTemplateText(a.ContactQuery, flows.ContactQueryEscaping, false, logEvent)
 	contactQuery = strings.TrimSpace(contactQuery)
+
+	// an expression that errored (already logged) has written nothing into the query, so what is left is a different
+	// query, e.g. one with a condition missing.. don't use it
+	if !ok {
+		contactQuery = ""
+	}
 
 	return groupRefs, contactRefs, contactQuery, urnList, nil
 }
